@@ -1,15 +1,23 @@
 #!/bin/bash
-# usage: tools/seedtest.sh <seed-dir-name> <check ids...>   applies seeded/<name>/patch.diff to /repo, runs the quick
-# tier of the named checks, prints the verdicts, and restores /repo (never commits anything there).
+# usage: tools/seedtest.sh <seed-dir-name> <check ids...>   applies seeded/<name>/patch.diff to a scratch worktree of
+# /repo at HEAD (never to /repo itself), runs the quick tier of the named checks against that worktree
+# (VERIF_REPO), prints the verdicts. The worktree (/var/tmp/seedtest-wt) is reused and reset on every call;
+# remove it with `git -C /repo worktree remove --force /var/tmp/seedtest-wt` when done.
 name=$1; shift
 cd /verif
-git -C /repo diff --quiet || { echo "/repo has uncommitted changes"; exit 2; }
-git -C /repo apply /verif/seeded/$name/patch.diff || exit 2
+WT=/var/tmp/seedtest-wt
+exec 8>/var/tmp/seedtest.lock; flock 8
+if [ ! -d $WT ]; then git -C /repo worktree add -q --detach $WT HEAD || exit 2; fi
+git -C $WT checkout -q --detach "$(git -C /repo rev-parse HEAD)" || exit 2
+git -C $WT checkout -q -- . ; git -C $WT clean -fdq
+git -C $WT apply /verif/seeded/$name/patch.diff || exit 2
 for c in "$@"; do
-  out=$(./check $c quick 2>&1)
+  # evidence of a seeded run must not overwrite the committed evidence: keep and restore it
+  cp evidence/$c.json /var/tmp/seedtest-evidence-$c.json 2>/dev/null
+  out=$(VERIF_REPO=$WT ./check $c quick 2>&1)
   rc=$?
+  cp /var/tmp/seedtest-evidence-$c.json evidence/$c.json 2>/dev/null
   nsig=$(echo "$out" | grep -c "^VIOLATION")
   echo "seed=$name check=$c exit=$rc violations=$nsig $(echo "$out" | grep -m1 'signature:' | cut -c1-160)"
 done
-git -C /repo checkout -- .
-git -C /repo status --short | head -3
+git -C $WT checkout -q -- .
